@@ -113,6 +113,23 @@ Theorem C04_concatenate_rebases_offsets : forall sel a b,
 Proof. exact concat_columnar. Qed.
 Print Assumptions C04_concatenate_rebases_offsets.
 
+(* concatenate_raw(<pattern>): whatever order the directory lists the matching files in, the same array comes back (the reader
+   sorts the listing by name; distinct files have distinct names), and it is the files in name order *)
+Theorem C04_pattern_listing_order_irrelevant : forall chk lfix l1 l2 pb names, Permutation l1 l2 -> NoDup (map fst l1) ->
+  concatenate_pattern chk lfix l1 pb names = concatenate_pattern chk lfix l2 pb names.
+Proof. exact concatenate_pattern_listing_order. Qed.
+Print Assumptions C04_pattern_listing_order_irrelevant.
+Theorem C04_pattern_reads_in_name_order : forall chk lfix listing pb names,
+  concatenate_pattern chk lfix listing pb names = concatenate_gen chk lfix (map snd (sort_by_name listing)) pb names /\
+  Sorted.StronglySorted name_le (sort_by_name listing) /\ Permutation (sort_by_name listing) listing.
+Proof. intros. split; [reflexivity|apply concatenate_pattern_name_order]. Qed.
+Print Assumptions C04_pattern_reads_in_name_order.
+Example C04_pattern_example :
+  map fst (sort_by_name [(5, [1]); (2, [2]); (9, [3]); (3, [4])]) = [2; 3; 5; 9] /\
+  sort_by_name [(5, [1]); (2, [2]); (9, [3]); (3, [4])] = sort_by_name [(9, [3]); (3, [4]); (2, [2]); (5, [1])].
+Proof. split; vm_compute; reflexivity. Qed.
+Print Assumptions C04_pattern_example.
+
 (* termination, pinned loop: exactly under the guard n_blocks = -1 or 0 <= n_blocks <= N, fuel N + 2 is enough *)
 Theorem C04_arrays_terminates_guarded : forall f chk pb sched dets nb fuel,
   wf_file f -> 1 <= pb -> (forall n, Permutation (sched n) (seq 0 n)) ->
